@@ -114,6 +114,7 @@ def _gen_main(rng, tier):
 def gen(rng, tier):
     yield from _gen_main(rng, tier)
     yield from _grid(rng, tier)
+    yield from _huge(rng, tier)
 
 
 def _grid(rng, tier):
@@ -126,3 +127,15 @@ def _grid(rng, tier):
             for a, b in grid_pairs(rng, cfg, lim):
                 yield f"div_floor {s}{cfg} dbg {hx(a)} {hx(b)}", "edge-grid"
                 yield f"div_ceil {s}{cfg} rel {hx(a)} {hx(b)}", "edge-grid"
+
+
+def _huge(rng, tier):
+    for cfg in HUGE_CFGS:
+        vals = huge_values(rng, cfg)
+        k = 0
+        for a in vals:
+            for b in vals[:5]:
+                s = "ui"[k % 2]
+                op = ['checked_div', 'checked_rem', 'checked_rem_euclid'][k % 3]
+                k += 1
+                yield f"{op} {s}{cfg} {hx(a)} {hx(b)}", "huge"
